@@ -92,7 +92,7 @@ static void triples_case(const Cfg &c, bool grid, int ntypes, bool excl) {
 
 static double dy(Rng &r, long lo, long hi, int den) { return (double)r.range(lo, hi) / (double)den; }
 
-static Cfg gen(Rng &r, bool exact, int maxn) {
+static Cfg gen(Rng &r, bool exact, int maxn, bool dense = false) {
   Cfg c; c.box = M::Zero();
   double L[3];
   for (int i = 0; i < 3; i++) { L[i] = exact ? std::ldexp(1.0, (int)r.range(1, 3)) : 2 + r.unit() * 6; c.box(i, i) = L[i]; }
@@ -113,6 +113,7 @@ static Cfg gen(Rng &r, bool exact, int maxn) {
   for (int i = 0; i < n; i++) {
     V p;
     int pk = (int)r.below(8);
+    if (dense && i > 0 && r.coin(1, 2)) pk = r.coin() ? 2 : 4;   // three-body cases: most beads close to an earlier one, so that triples exist
     for (int k = 0; k < 3; k++) {
       double f = exact ? dy(r, 0, 32, 32) : r.unit();           // fractional coordinate
       if (pk == 0) f = exact ? dy(r, 0, 8, 8) : f;              // on cell boundaries
@@ -182,9 +183,9 @@ int main(int argc, char **argv) {
       pairs_case(c, true, lists, excl);
       pairs_case(c, false, lists, excl);
     } else {
-      Cfg c = gen(r, exact, 8);
-      bool excl = r.coin(1, 3);
       int nt = 1 + (int)r.below(3);
+      Cfg c = gen(r, exact, nt == 3 ? 12 : 8, nt >= 2);
+      bool excl = r.coin(1, 3);
       triples_case(c, true, nt, excl);
       triples_case(c, false, nt, excl);
     }
